@@ -29,27 +29,28 @@ CHECKS["C20"] = dict(
 _LIBMEM = dict(
     level="model_checking",
     assumptions=["allocator driven through its public API only", "request creation stamps are strictly increasing (asserted, execution retried otherwise)",
-                 "node sets limited to 2-4 nodes, 5-6 request shapes per scenario, at most two outstanding offers"],
+                 "node sets limited to 2-4 nodes (one 8-node DRAM+PMEM set searched from a non-initial state with overlapping zones), 5-6 request shapes per scenario incl. zero-sized ones, at most two outstanding offers",
+                 "state key = observable allocator state + per outstanding offer the successful operations since it was taken (the implementation keeps a hidden version counter, so equally-stale offers reached by different operations are not merged)"],
 )
 CHECKS["C06"] = dict(_LIBMEM,
     rule="explicit-state BFS over Allocate/GetOffer/Commit/Realloc/Release/Reset on a real libmem Allocator per node-set scenario; "
          "twin executions (trace without uncommitted offers / commit replaced by direct allocation) for the differential clauses; "
          "non-trivial = distinct states with at least two live allocations",
-    bound=dict(quick="16 scenarios, all sequences to depth 4", thorough="22 scenarios, all sequences to depth 5"),
+    bound=dict(quick="18 scenarios, all sequences to depth 4 (8-node set: prefix of 3 + depth 3)", thorough="27 scenarios, all sequences to depth 5 (8-node set: prefix of 3 + depth 4)"),
     stages=[dict(pkg="./pkg/resmgr/lib/memory", run="TestVerifC06", shards=16)],
 )
 CHECKS["C07"] = dict(_LIBMEM,
     rule="same exploration frame as C06; after every successful Allocate/Realloc/Commit: capacity of every node subset, strict types, "
          "normal memory, superset-only moves, immovable reservations, exact update set; non-trivial = states with at least two live allocations",
-    bound=dict(quick="16 scenarios, all sequences to depth 4", thorough="22 scenarios, all sequences to depth 5"),
+    bound=dict(quick="18 scenarios, all sequences to depth 4 (8-node set: prefix of 3 + depth 3)", thorough="27 scenarios, all sequences to depth 5 (8-node set: prefix of 3 + depth 4)"),
     stages=[dict(pkg="./pkg/resmgr/lib/memory", run="TestVerifC07", shards=16)],
 )
 
 CHECKS["C16"] = dict(
     level="exploration", engine="inputx",
     technique="exhaustive enumeration of a generated machine family; discovery judged against the generator's record, pool tree judged against structural rules",
-    rule="every machine of the family packages{1,2,4} x dies{1,2} x NUMA/die{1,2} x cores{1,2(,3)} x threads{1,2} x 14 variants "
-         "(HT numbering, offline/isolated CPUs, CPU-less PMEM/HBM nodes, memory-less and movable-only nodes, cache sharing patterns, hybrid cores, cpufreq); "
+    rule="every machine of the family packages{1,2,4} x dies{1,2} x NUMA/die{1,2} x cores{1,2(,3)} x threads{1,2} x 15 variants "
+         "(HT numbering, offline/isolated CPUs incl. all-but-one CPU isolated, CPU-less PMEM/HBM nodes, memory-less and movable-only nodes, cache sharing patterns, hybrid cores, cpufreq); "
          "non-trivial = machines with at least one irregularity (extra nodes, offline/isolated CPUs, memory-less node, hybrid cores)",
     bound=dict(quick="~570 machines for discovery; ~250 machines x 4 available/reserved configurations for the pool tree", thorough="~830 machines; ~250 machines x 6 configurations"),
     assumptions=["sysfs model: node ids contiguous from 0, an offline CPU keeps its nodeN link but has no topology directory, node cpulist lists online CPUs only"],
@@ -63,7 +64,7 @@ CHECKS["C08"] = dict(
     rule="per generated topology: every subset of online CPUs as candidate set x every count 0..|set|+1 x 4 priorities x flag sets, for AllocateCpus and ReleaseCpus; "
          "each input is run on 4-5 allocators (sorted, fresh, reverse and rotated map order) and all outcomes must agree; "
          "non-trivial = inputs with 0 < cnt < |set| (the allocator actually has to choose)",
-    bound=dict(quick="13 topologies of up to 8 CPUs, 6 flag sets", thorough="18 topologies of up to 12 CPUs, all 16 flag combinations + default"),
+    bound=dict(quick="14 topologies of up to 8 CPUs (incl. hybrid + clustered across two packages), 6 flag sets", thorough="19 topologies of up to 12 CPUs, all 16 flag combinations + default"),
     assumptions=["map iteration order is controlled through the vgen map-range rewrite (sorted / reverse / rotate policies applied to all sites), not all per-site permutations",
                  "ReleaseCpus semantics as used by its callers: on return *from holds the n released CPUs and the result the CPUs kept"],
     stages=[dict(pkg="./pkg/cpuallocator", run="TestVerifC08", shards=16)],
@@ -90,28 +91,31 @@ CHECKS["C03"] = _resmgr("C03",
     "8 scenarios, depth 5", "12 scenarios, depth 6")
 CHECKS["C05"] = _resmgr("C05",
     "same frame as C01; oracle: told-view (creation adjustment + returned and pushed updates, NRI merge semantics) equals the cache for every live container, nothing pending, "
-    "adjustment describes only the created container, at most one update per container, no update to stopped/removed containers; non-trivial = states with at least two live containers",
-    "8 scenarios, depth 5", "12 scenarios, depth 6")
+    "adjustment describes only the created container, at most one update per container, no update to stopped/removed containers; the driver includes the reconfiguration scenarios of C13 "
+    "(configuration updates offered at every request boundary: identical, accepted changes, every rejection kind - a rejected update is rolled back by re-applying the old configuration, which moves containers again); "
+    "non-trivial = states with at least two live containers",
+    "23 scenarios (both policies), depth 4-5", "29 scenarios, depth 5-6")
 CHECKS["C09"] = _resmgr("C09",
     "explicit-state BFS as C01 plus failing requests, resynchronisation, reconfiguration between stop and remove, restarts and re-created containers; for EVERY visited state the history is extended by "
     "'stop and remove everything' on the same real instance and compared with the pristine state of a fresh instance with the effective configuration; per request: stopped/removed containers hold nothing; "
     "non-trivial = states with at least two live containers",
-    "12 scenarios, depth 5 (+ drain suffix per state)", "16 scenarios, depth 6 (+ drain suffix per state)")
+    "23 scenarios (both policies, incl. a reconfiguration that removes the CPUs exclusive grants sit on), depth 5 (+ drain suffix per state)", "29 scenarios, depth 6 (+ drain suffix per state)")
 CHECKS["C02"] = _resmgr("C02",
     "explicit-state BFS over create/stop/remove/synchronize/reconfigure histories on a real balloons resource manager per configuration scenario; oracle after every request from zones, cache/told cpusets, "
     "the cached CPU class assignment and the balloon snapshot: disjoint balloons inside the available set, exactly-one membership, container cpuset = balloon + shared idle (one thread per core when hidden), "
     "shared idle set exact for the sharing scope, min/max CPUs and instances, balloon size >= requests, CPU classes; non-trivial = states with at least two live containers",
     "4 configuration scenarios, depth 5", "6 configuration scenarios, depth 6")
 CHECKS["C04"] = _resmgr("C04",
-    "explicit-state BFS over create/stop/remove histories with memory-heavy containers on NUMA layouts (2/4 DRAM, DRAM+CPU-less PMEM, DRAM+HBM, movable-only node, asymmetric capacities), both policies; "
+    "explicit-state BFS over create/start/stop/remove histories with memory-heavy containers on NUMA layouts (2/4 DRAM, DRAM+CPU-less PMEM, DRAM+HBM, movable-only node, asymmetric capacities), both policies, "
+    "incl. a balloon that inflates from one NUMA node across both (re-allocation of the zones of the containers in it) and topology-aware cold start (PMEM-only zone, re-allocated to PMEM+DRAM by the cold-start-done event, offered only while the policy has a cold-start timer armed); "
     "oracle after every request: told/cached cpuset.mems = Allocator.AssignedZone, non-empty, nodes with memory; capacity of every node subset; widened zones delivered in the same reply; "
     "non-trivial = states with at least two memory allocations",
-    "9 scenarios, depth 5", "10 scenarios, depth 6")
+    "11 scenarios, depth 5", "12 scenarios, depth 6")
 CHECKS["C12"] = _resmgr("C12",
     "explicit-state BFS over histories in which opted-out containers (cpu.preserve / memory.preserve at container, pod and bare level, balloons preserve rule, pinCPU/pinMemory off globally or per balloon type) are created with a "
-    "non-empty runtime cpuset and coexist with containers that cause re-balancing (shared-set shrink/grow, balloon inflate/deflate, zone widening), with updates, synchronize and reconfigure; "
+    "non-empty runtime cpuset and coexist with containers that cause re-balancing (shared-set shrink/grow, balloon inflate/deflate, zone widening under memory pressure incl. a Burstable memory-only opt-out), with updates, synchronize, reconfigure and the end of cold-start periods; "
     "oracle: every adjustment/update addressed to an opted-out container carries no plugin-chosen cpus / no different mems; non-trivial = states with at least two live containers",
-    "10 scenarios, depth 5", "11 scenarios, depth 6")
+    "16 scenarios, depth 5", "17 scenarios, depth 6")
 CHECKS["C13"] = _resmgr("C13",
     "explicit-state BFS over histories with a configuration update offered at every request boundary (identical, every rejection kind, valid changes), both policies; oracle: identical config changes nothing and pushes no real change; "
     "a rejected update leaves containers, zones and policy state untouched and - twin execution on a second real instance without the rejected updates - later decisions identical; after an accepted update all C01-C05/C02/C09 clauses hold; "
@@ -121,7 +125,7 @@ CHECKS["C13"] = _resmgr("C13",
 CHECKS["C10"] = dict(
     level="fault_enumeration", engine="crashx",
     technique="explicit-state search over cache operation histories; for every save of every history: enumeration of every crash point (each primitive filesystem step, each byte offset of a write into the cache file) and every single step failure through an os shim; exhaustive permission matrix",
-    rule="all histories of 18 cache operations up to the depth bound on a real cache that starts on a fresh state directory (the very first save, into a directory without a cache file, is hooked and judged too); per save: the directory state at every primitive-step boundary and at every byte offset of a write that targets the cache file itself "
+    rule="all histories of 19 cache operations (incl. a plugin restart: a new cache instance on the same state directory, not rendered before the next save) up to the depth bound on a real cache that starts on a fresh state directory (the very first save, into a directory without a cache file, is hooked and judged too); per save: the directory state at every primitive-step boundary and at every byte offset of a write that targets the cache file itself "
          "(offsets of writes into the temporary file leave the cache file untouched and are reloaded at the first, middle and last byte only) is materialised and loaded with NewCache; every primitive step is made to fail once "
          "(EIO, also with short writes); target x kind x all 512 modes for the permission clause; non-trivial = histories containing a container / refused permission cases",
     bound=dict(quick="depth 3 histories; 7680 permission cases", thorough="depth 6 histories; 7680 permission cases"),
@@ -139,7 +143,7 @@ CHECKS["C14"] = dict(
     rule="(a) explicit-state BFS over NRI event sequences with known, never-seen and already-removed pod/container ids, duplicates and out-of-order lifecycle events on a real resource manager (both policies), every state extended by a "
          "canonical valid probe (run pod, create, start, stop, remove a fresh BestEffort container) that must be served; (b) every annotation key the plugins interpret x a menu of 32 values (empty, booleans, huge/negative numbers, "
          "malformed YAML/JSON, null elements, 1 MiB strings) x container/pod/bare form, and every resource shape with an optional sub-message absent, each through a full lifecycle + synchronize + reconfigure; "
-         "(c) memory-qos, memtierd and sgx-epc handlers x configurations x container shapes x annotation sets; oracle: no handler panics; non-trivial = states/cases beyond the well-formed lifecycle",
+         "(c) memory-qos, memtierd and sgx-epc handlers x configurations x container shapes x annotation sets x request sequences (memtierd also x launch environment: no cgroup directory, no memtierd binary in PATH, a memtierd that starts), each followed by a valid probe request; oracle: no handler panics, the probe is served; non-trivial = states/cases beyond the well-formed lifecycle",
     bound=dict(quick="4 scenarios depth 3 + ~3200 input cases + ~1000 side-plugin cases", thorough="4 scenarios depth 4 + same inputs"),
     assumptions=_RESMGR_ASSUME + ["a panic is observed through recover() around the handler call; log.Fatal/os.Exit in a handler would kill the worker and be reported as a dead worker"],
     stages=[dict(pkg="./pkg/resmgr", run="TestVerifC14", shards=4, quick=dict(deadline_s=420), thorough=dict(deadline_s=3000)),
@@ -179,7 +183,8 @@ CHECKS["C15"] = dict(
     level="model_checking", engine="schedx",
     technique="stateless model checking of the real code under a controlled cooperative scheduler: DFS over all schedules with iterative preemption bounding; lock-discipline monitor; serialisability against all sequential orders",
     rule="(A) a real resource manager whose RWMutex is the scheduler-aware shim and whose cache/policy fields are access-checking proxies; 2-3 logical threads, 1-2 requests each, on colliding pods/containers; every schedule up to the preemption "
-         "bound; oracle: every proxied cache/policy access happens under the resource manager lock, no deadlock, no panic, final state equals the final state of some sequential order; "
+         "bound; oracle: every proxied cache/policy access happens under the resource manager lock, no deadlock, no panic, final state equals the final state of some sequential order, and a reply is still what its handler returned when it is consumed "
+         "(a scheduling point of its own between the handler's return and the consumption of its reply models the transport); "
          "(B) InsertPod + GetPodResources vs the fetch goroutine vs the environment (go/chan operations rewritten to scheduler calls); states = schedules executed, transitions = scheduling points; non-trivial = schedules",
     bound=dict(quick="preemption bound 2", thorough="preemption bound 3 (pipeline) / unbounded (fetch)"),
     assumptions=["scheduling points: resmgr lock operations, proxied cache/policy calls, goroutine creation and channel operations in cache/pod.go; plain memory accesses between points are atomic (data races at the memory-model level are out of scope)",
